@@ -97,7 +97,41 @@ pub fn delta(_fields: &[&str]) -> String
 {
 	"todo".into()
 }
-pub fn fuzz(_fields: &[&str]) -> String
+/// fuzz <kb>: exactly what `penne fuzz tokens --kb <kb>` does (src/main.rs: do_fuzzing), then both real lexers
+pub fn fuzz(fields: &[&str]) -> String
 {
-	"todo".into()
+	let kb: usize = fields.get(0).and_then(|x| x.parse().ok()).unwrap_or(1);
+	let capacity = kb * 1096;
+	let mut buffer = String::with_capacity(capacity);
+	if let Err(e) = penne::delta::fuzzer::fill_to_capacity_with_tokens(95, &mut buffer, 0)
+	{
+		return format!("internal {}", e);
+	}
+	let alpha = penne::alpha::lexer::lex(&buffer, "fuzz.pn");
+	let alpha_errs: Vec<String> = alpha
+		.iter()
+		.filter_map(|t| match &t.result
+		{
+			Err(e) => Some(format!(
+				"{}@{}",
+				crate::alpha_ops::lex_error_code(e),
+				t.location.span.start
+			)),
+			Ok(_) => None,
+		})
+		.collect();
+	let tokens = lexer::lex(buffer.as_bytes(), "fuzz.pn");
+	let delta_errs: Vec<String> = match tokens.errors()
+	{
+		Some(es) => es.codes().iter().map(|c| c.to_string()).collect(),
+		None => vec![],
+	};
+	format!(
+		"len={} kb={} alpha_errs={} delta_errs={} text=h:{}",
+		buffer.len(),
+		kb,
+		alpha_errs.join(","),
+		delta_errs.join(","),
+		crate::hex(buffer.as_bytes())
+	)
 }
